@@ -98,6 +98,16 @@ func collect2(q ecs.Query2[A, R]) []ecs.Entity {
 	return out
 }
 
+// collectU drains an ID-based query (UnsafeFilter.Query takes and releases the world lock through the same
+// mutex-protected path as the generated queries).
+func collectU(q ecs.UnsafeQuery) []ecs.Entity {
+	var out []ecs.Entity
+	for q.Next() {
+		out = append(out, q.Entity())
+	}
+	return out
+}
+
 func key(es []ecs.Entity) string {
 	ids := make([]int, len(es))
 	for i, e := range es {
@@ -126,6 +136,8 @@ func TestConcurrentQueries(t *testing.T) {
 			// internal relation buffer); later queries with their own targets must not share it
 			_ = sharedRel.Batch(ecs.RelIdx(1, x.targets[r.Intn(3)]))
 		}
+		idA, idB, idR := ecs.ComponentID[A](w), ecs.ComponentID[B](w), ecs.ComponentID[R](w)
+		sharedUnsafe := ecs.NewUnsafeFilter(w, idA)
 		fns := []queryFn{
 			func() []ecs.Entity { return collect2(sharedRel.Query(ecs.RelIdx(1, x.targets[0]))) },
 			func() []ecs.Entity { return collect2(sharedRel.Query(ecs.RelIdx(1, x.targets[1]))) },
@@ -144,6 +156,16 @@ func TestConcurrentQueries(t *testing.T) {
 				q.Close()
 				return out
 			},
+			// ID-based queries: a shared UnsafeFilter, per-call filters, per-query relation targets, early Close
+			func() []ecs.Entity { return collectU(sharedUnsafe.Query()) },
+			func() []ecs.Entity { return collectU(ecs.NewUnsafeFilter(w, idA, idB).Query()) },
+			func() []ecs.Entity { return collectU(ecs.NewUnsafeFilter(w, idA, idR).Query(ecs.RelID(idR, tgt))) },
+			func() []ecs.Entity {
+				q := sharedUnsafe.Query()
+				q.Next()
+				q.Close() // closed early: the bit goes back while other goroutines take theirs
+				return collectU(sharedUnsafe.Query())
+			},
 		}
 		// sequential reference on fresh filters
 		want := []string{
@@ -155,6 +177,10 @@ func TestConcurrentQueries(t *testing.T) {
 			key(collect2(ecs.NewFilter2[A, R](w).Query(ecs.RelIdx(1, tgt)))),
 			key(collect1(ecs.NewFilter1[A](w).Without(ecs.C[C]()).Query())),
 			key(collect1(ecs.NewFilter1[A](w).Query())),
+			key(collect1(ecs.NewFilter1[A](w).Query())),
+			key(collect1(ecs.NewFilter1[A](w).With(ecs.C[B]()).Query())),
+			key(collect2(ecs.NewFilter2[A, R](w).Query(ecs.RelIdx(1, tgt)))),
+			key(collect1(ecs.NewFilter1[A](w).Query())),
 		}
 		goroutines := []int{2, 8, 64}[r.Intn(3)]
 		for phase := 0; phase < 2; phase++ {
@@ -164,6 +190,8 @@ func TestConcurrentQueries(t *testing.T) {
 				want[3] = key(collect1(ecs.NewFilter1[A](w).Query()))
 				want[6] = key(collect1(ecs.NewFilter1[A](w).Without(ecs.C[C]()).Query()))
 				want[7] = want[3]
+				want[8] = want[3]
+				want[11] = want[3]
 			}
 			var wg sync.WaitGroup
 			start := make(chan struct{})
